@@ -46,8 +46,8 @@ CFG = PropCfg(
 
 MANIFEST = {
     "text": "Proof (Lean 4, unbounded): for each of 12 codecs (one-byte-length strings, certificate id block, id "
-            "chunk, certificate, intent, grant message, tube frame and initiate frame, exec request, user-auth "
-            "request, port-forward request) the model writer/reader pair, transcribed field by field from the Go "
+            "chunk, certificate, intent, grant message, tube frame and initiate frame, exec request, exec status, "
+            "user-auth request, port-forward request) the model writer/reader pair, transcribed field by field from the Go "
             "code, satisfies C18_X_roundtrip (decode(encode v ++ rest) = (v, rest) for every representable v), "
             "C18_X_reject (unrepresentable values are refused by writers that have an error path) and "
             "C18_X_stable (every accepted byte string re-encodes to something that decodes to the same value); "
